@@ -224,7 +224,7 @@ func c14For(c *Ctx, pp string) {
 					}
 				}
 			}
-			if call, ok := in.(*ssa.Call); ok && call.Call.StaticCallee() != nil && call.Call.StaticCallee().Name() == "SetExit" {
+			if call, ok := in.(*ssa.Call); ok && call.Call.StaticCallee() != nil && fnName(call.Call.StaticCallee()) == "SetExit" {
 				return true
 			}
 			return false
@@ -538,7 +538,7 @@ func c14For(c *Ctx, pp string) {
 				r.Ob("POLL-IN-CYCLE", key, pos, false, "this loop has a cycle on which neither StmtRetrun() nor ProcExit() is polled with an exit on true: an iteration can repeat forever after the signal fired")
 				continue
 			}
-			r.Ob("POLL-IN-CYCLE", key, t.Pos(poll.Pos()), true, poll.Call.StaticCallee().Name()+" poll dominates every back edge and its true edge leaves the loop"+viaHelper)
+			r.Ob("POLL-IN-CYCLE", key, t.Pos(poll.Pos()), true, fnName(poll.Call.StaticCallee())+" poll dominates every back edge and its true edge leaves the loop"+viaHelper)
 			// (3b) the body is where the signal is observed (RunStmts polls after each statement and returns): between
 			// the body's return and the next evaluation in the same iteration (post statement, next element, …) the
 			// executor must consult the latch, or that evaluation runs after the signal was observed
@@ -585,7 +585,7 @@ func c14For(c *Ctx, pp string) {
 									continue
 								}
 								if reachAvoid(body, ev, isPoll) {
-									late = fmt.Sprintf("%s at %s is reachable from the body without a latch test in between", ev.Call.StaticCallee().Name(), t.Pos(ev.Pos()))
+									late = fmt.Sprintf("%s at %s is reachable from the body without a latch test in between", fnName(ev.Call.StaticCallee()), t.Pos(ev.Pos()))
 								}
 							}
 						}
